@@ -586,6 +586,123 @@ def literal(ctx, drv):
             ctx.disagree("corr.literal", {"input": src, "what": "model does not reproduce a Plain source"}, model, src)
 
 
+# --------------------------------------------------------------------------------------------- exception objects
+
+def _factories():
+    return [
+        ("Boom", True, lambda i: rt.Boom(i)),
+        ("ValueError-args", True, lambda i: ValueError("status", 302, "/login")),
+        ("AbortRequest", False, lambda i: rt.AbortRequest(302, "/login")),
+        ("SystemExit", False, lambda i: SystemExit(3)),
+        ("KeyboardInterrupt", False, lambda i: KeyboardInterrupt()),
+        ("GeneratorExit", False, lambda i: GeneratorExit("g", 1)),
+    ]
+
+
+def exception_objects(ctx, drv):
+    """which OBJECT reaches the caller of render: identity, class and constructor arguments, for exceptions inside
+    and outside `Exception`, under error_handler (true / false-ish results), format_exceptions and
+    include_error_handler - real mako vs the decision-logic model (`renderErrorObj`, `includeErrorObj`) and vs the
+    property text"""
+    from mako.lookup import TemplateLookup
+    from mako.runtime import Context
+    from mako import util
+    st = ctx.stream("corr.exception_object")
+    so = ctx.stream("oracle.exception_object", "oracle")
+    Impl.serial += 1
+    pre = "x%d_" % Impl.serial
+    lk = TemplateLookup(cache_enabled=False)
+    lk.put_string(pre + "main.html", rt.PRELUDE + "before<%def name='d()' buffered='True'>in${boom()}</%def>${d()}after")
+    lk.put_string(pre + "inc.html", rt.PRELUDE + "i${boom()}j")
+    lk.put_string(pre + "outer.html", rt.PRELUDE + "a<%include file='" + pre + "inc.html'/>z")
+    main, inc, outer = (lk.get_template(pre + n) for n in ("main.html", "inc.html", "outer.html"))
+    wire = {None: "n", True: "t", False: "f"}
+
+    def run(t, factory):
+        seen_arg = []
+        rt.reset(0, factory=factory)
+        ctx_ = Context(util.FastEncodingBuffer())
+        ctx_._outputting_as_unicode = True
+        caught = None
+        try:
+            t.render_context(ctx_)
+        except BaseException as e:       # noqa - BaseExceptions are the point here
+            caught = e
+        return caught, ctx_
+
+    falsy = [False, None, 0, ""]
+    for name, is_exc, factory in _factories():
+        # ---- error_handler / format_exceptions on the template itself
+        for eh in ["absent", True] + falsy:
+            for fe in (False, True):
+                got = []
+
+                def handler(c, error, eh=eh, got=got):
+                    got.append(error)
+                    return eh
+                main.error_handler = handler if eh != "absent" else None
+                main.format_exceptions = fe
+                caught, c = run(main, factory)
+                obj = rt.STATE.last
+                so["cases"] += 1
+                st["cases"] += 1
+                ctx.branch("excobj:%s:%s" % (name, "handler" if eh != "absent" else ("fe" if fe else "bare")))
+                arg = "none" if not got else ("inst" if got[0] is obj else ("cls" if got[0] is type(obj) else "other"))
+                page = caught is None and is_error_page(c._buffer_stack[-1].getvalue())
+                if caught is None:
+                    seen = "returned"
+                elif caught is obj and type(caught) is type(obj) and caught.args == obj.args:
+                    seen = "same"
+                else:
+                    seen = "other"
+                case = {"input": "before<%def name='d()' buffered='True'>in${boom()}</%def>${d()}after",
+                        "exception": name, "error_handler": repr(eh), "format_exceptions": fe}
+                # property text: unhandled (no handler / handler result false) -> the original object, unchanged
+                handled = (eh is True) or (eh == "absent" and fe)
+                if not handled and seen != "same":
+                    ctx.violation("exception-object-changed", case,
+                                  {"raised": repr(obj), "caught": repr(caught), "same_object": caught is obj},
+                                  "oracle.exception_object")
+                if handled and caught is not None:
+                    ctx.violation("handled-exception-propagated", case, {"caught": repr(caught)},
+                                  "oracle.exception_object")
+                model = drv.ask("tgt errobj %s %d %d" % (wire[None if eh == "absent" else bool(eh)], 1 if fe else 0,
+                                                         1 if is_exc else 0))
+                impl = "%s %s %d" % (arg, seen, 1 if page else 0)
+                if model != impl:
+                    ctx.disagree("corr.exception_object", case, model, impl)
+        main.error_handler = None
+        main.format_exceptions = False
+        # ---- include_error_handler
+        for ieh in ["absent", True] + falsy:
+            got = []
+
+            def ihandler(c, error, ieh=ieh, got=got):
+                got.append(error)
+                return ieh
+            inc.include_error_handler = ihandler if ieh != "absent" else None
+            caught, c = run(outer, factory)
+            obj = rt.STATE.last
+            so["cases"] += 1
+            st["cases"] += 1
+            ctx.branch("excobj:%s:include" % name)
+            arg = "none" if not got else ("inst" if got[0] is obj else "other")
+            seen = "returned" if caught is None else \
+                ("same" if caught is obj and type(caught) is type(obj) and caught.args == obj.args else "other")
+            case = {"input": "a<%include file='inc.html'/>z / inc.html: i${boom()}j", "exception": name,
+                    "include_error_handler": repr(ieh)}
+            handled = ieh is True and is_exc
+            if not handled and seen != "same":
+                ctx.violation("exception-object-changed", case,
+                              {"raised": repr(obj), "caught": repr(caught), "same_object": caught is obj},
+                              "oracle.exception_object")
+            model = drv.ask("tgt incobj %s %d" % (wire[None if ieh == "absent" else bool(ieh)], 1 if is_exc else 0))
+            impl = "%s %s 0" % (arg, seen)
+            if model != impl:
+                ctx.disagree("corr.exception_object", case, model, impl)
+        inc.include_error_handler = None
+
+
 # --------------------------------------------------------------------------------------------- entry points
 
 def knob_sets(ctx):
@@ -659,6 +776,8 @@ def run(ctx):
         ctx.log("corr.structural: %d templates" % ctx.streams["corr.structural"]["cases"])
         behaviour(ctx, drv, pending)
         ctx.log("corr.behaviour: %d runs" % ctx.streams["corr.behaviour"]["cases"])
+        exception_objects(ctx, drv)
+        ctx.log("corr.exception_object: %d cases" % ctx.streams["corr.exception_object"]["cases"])
         literal(ctx, drv)
         ctx.log("corr.literal: %d sources" % ctx.streams["corr.literal"]["cases"])
 
@@ -667,6 +786,17 @@ def replay(ctx, data):
     case = data.get("case") or {}
     if not case and data.get("first_disagreements"):
         case = data["first_disagreements"][0].get("case") or {}
+    if isinstance(case, dict) and "exception" in case:
+        # exception-object cases: re-run the (small, fixed) family and look for this configuration
+        tmp = type(ctx)(ctx.pid, "quick", data.get("seed", 0))
+        exception_objects(tmp, ctx.driver())
+        keys = ("exception", "error_handler", "format_exceptions", "include_error_handler")
+        hits = [v for v in tmp.violations if all(v["case"].get(k) == case.get(k) for k in keys)]
+        for v in hits:
+            print("property violated:", v["site"], json.dumps(v["detail"]))
+        if not hits:
+            print("the original object reaches the caller for", {k: case.get(k) for k in keys})
+        return not hits
     bodies = case.get("bodies")
     if not bodies:
         print("nothing to replay in", list(data))
